@@ -697,9 +697,17 @@ pub fn gen_trace(seed: u64, tier: Tier) -> RecorderTrace {
             _ => ExitSpec::NotFound,
         };
         labels.push("RUN".into());
+        // now and then far more output than a pipe buffer holds, on both streams
+        let big = r.chance(1, 12);
+        let (so, se) = if big {
+            labels.push("BIG-OUTPUT".into());
+            (vec![b'o'; 200_000 + r.idx(1000)], vec![b'e'; 150_000 + r.idx(1000)])
+        } else {
+            (r.pick(&pool[..]).to_vec(), r.pick(&pool[..]).to_vec())
+        };
         Some(RunPart {
             name: gen::simple_name(&mut r),
-            actor: ActorScript { id: "step".into(), ops, stdout: r.pick(&pool[..]).to_vec(), stderr: r.pick(&pool[..]).to_vec(), exit },
+            actor: ActorScript { id: "step".into(), ops, stdout: so, stderr: se, exit },
             use_run_dir: r.chance(1, 2),
         })
     } else {
